@@ -135,7 +135,7 @@ def w4 : Sys Nat := { crit := w3.crit.updateBest r0, ws := w3.ws.set 0 (if r0.is
 def w5 : Sys Nat := { crit := w4.crit, ws := w4.ws.set 0 (.compX R w4.crit.readLb) }
 def w6 : Sys Nat := { crit := w5.crit, ws := w5.ws.set 0 (WSt.afterX R iMin (.ok x0)) }
 def w7 : Sys Nat := { crit := w6.crit.updateBest x0, ws := w6.ws.set 0 (if x0.isExact then .fin R false else .enq R iMin x0) }
-def w8 : Sys Nat := { crit := w7.crit.enqueue false R.ub x0.cutset, ws := w7.ws.set 0 (.fin R false) }
+def w8 : Sys Nat := { crit := w7.crit.enqueue false x0.cutset, ws := w7.ws.set 0 (.fin R false) }
 def w9 : Sys Nat := nNotify w8 0 R.depth false
 def w10 : Sys Nat := nItem w9 1 M [N]
 def w11 : Sys Nat := nItem w10 0 N []
